@@ -709,6 +709,9 @@ def build():
     C16_save.add(plan, ctx, lambda plan_, c: {"custom": "search_edit", "native_module": plan_.native_module, "op": "add_row"})
     from contracts.shared_ground import added_table_owns_every_keyed_list
     plan.ground.append(("added-table-owns-every-keyed-list", added_table_owns_every_keyed_list))
+    # "saving ... may be repeated": the text keys of a save are not remembered for the next one (shared with C01)
+    from contracts.shared_ground import keys_of_emptied_lists_not_memoised
+    plan.ground.append(("keys-of-lists-emptied-on-save-are-not-memoised", keys_of_emptied_lists_not_memoised))
 
     plan.bounded.append(BoundedStandIn(
         "edit-histories", "c03_histories.py", ["--max-len", "2", "--random", "40", "--small"],
